@@ -305,8 +305,14 @@ class Switch(Generic[R], GenerativeFunction[R]):
         if Diff.tree_tangent(idx_diff) == UnknownChange:
             weight = score - trace.get_score()
 
-        # TODO: this is totally wrong, fix in future PR.
-        bwd_request: Update = rets[0][3]
+        if Diff.tree_tangent(idx_diff) == NoChange:
+            # Only the executed branch was really edited: its backward constraint is the one that matters.
+            bwd_request = Update(
+                ChoiceMap.switch(new_idx, [t[3].constraint for t in rets])
+            )
+        else:
+            # The branch may have changed: going back means re-installing the old choices.
+            bwd_request = Update(trace.get_choices())
 
         return (
             SwitchTrace(self, primals, subtraces, retval, score),
